@@ -92,10 +92,11 @@ type sub struct {
 }
 
 type mainRec struct {
-	Kind     string         `json:"kind"`
-	Main     int            `json:"main"`
-	Prog     map[string]sub `json:"prog"`
-	TestSubs map[string]sub `json:"testsubs"`
+	Kind     string            `json:"kind"`
+	Main     int               `json:"main"`
+	Prog     map[string]sub    `json:"prog"`
+	TestSubs map[string]sub    `json:"testsubs"`
+	Fixture  map[string]string `json:"fixture"`
 }
 
 type caseExp struct {
@@ -335,6 +336,18 @@ func renderOp(o []json.RawMessage) string {
 		return fmt.Sprintf(`set req.http.%s = %q;`, str(o[1]), str(o[2]))
 	case "tblset":
 		return fmt.Sprintf(`testing.table_set(tbl, "k", %q);`, str(o[1]))
+	case "tblsetk":
+		return fmt.Sprintf(`testing.table_set(tbl, %q, %q);`, str(o[1]), str(o[2]))
+	case "tblmerge":
+		return `testing.table_merge(tbl, fixture);`
+	case "restore_mock":
+		return fmt.Sprintf(`testing.restore_mock(%q);`, str(o[1]))
+	case "restore_all":
+		return `testing.restore_all_mocks();`
+	case "a_tblk_eq":
+		return fmt.Sprintf(`assert.equal(table.lookup(tbl, %q), %q);`, str(o[1]), str(o[2]))
+	case "a_tblk_notset":
+		return fmt.Sprintf(`assert.is_notset(table.lookup(tbl, %q));`, str(o[1]))
 	case "inject":
 		return fmt.Sprintf(`testing.inject_variable("client.geo.country_code", %q);`, str(o[1]))
 	case "mock":
@@ -397,6 +410,19 @@ var scopeStyles = []string{"// @scope: %s", "# @scope: %s", "// @%s", "//@scope:
 
 func renderTests(b *runRec, m *mainRec, seed int64) string {
 	var sb strings.Builder
+	// the fixture table of the test file (input of testing.table_merge)
+	if len(m.Fixture) > 0 {
+		var keys []string
+		for k := range m.Fixture {
+			keys = append(keys, k)
+		}
+		sort.Strings(keys)
+		sb.WriteString("table fixture STRING {\n")
+		for _, k := range keys {
+			fmt.Fprintf(&sb, "  %q: %q,\n", k, m.Fixture[k])
+		}
+		sb.WriteString("}\n")
+	}
 	for k, t := range b.Tests {
 		if s, ok := m.TestSubs[t.Name]; ok {
 			// a helper subroutine of the test file (mock target); the tester runs it like any other subroutine
